@@ -42,6 +42,9 @@ structure Cfg where
   blobTrash : Bool
   conc : Nat              -- BlobDeleteConcurrency
   res : Nat               -- ticks per second
+  /-- ticks that pass between the per-volume calls inside ONE untrash request (handleUntrash visits the
+  writable volumes one after the other and each restored file is stamped with its own time.Now()) -/
+  spread : Nat := 0
 
 structure St where
   vols : List Vol
@@ -98,11 +101,12 @@ def minEntry (h : Hash) : List TrashEnt → Option TrashEnt
       | none => some e
     else minEntry h es
 
-/-- UnixVolume.Untrash: none = os.ErrNotExist -/
-def Vol.untrash (v : Vol) (h : Hash) : Option Vol :=
+/-- UnixVolume.Untrash: none = os.ErrNotExist; the restored file replaces whatever is at the block
+path and gets a current timestamp (fix f7a86a4) -/
+def Vol.untrash (v : Vol) (h : Hash) (now : Time) : Option Vol :=
   match minEntry h v.trash with
   | none => none
-  | some e => some { v.setBlock h (some e.file) with
+  | some e => some { v.setBlock h (some { e.file with mtime := now }) with
                      trash := v.trash.filter (fun x => !(x.hash = h ∧ x.deadline = e.deadline)) }
 
 /-- UnixVolume.EmptyTrash: removes exactly the trash files whose deadline is not in the future -/
@@ -175,9 +179,9 @@ def tiVol (c : Cfg) (now : Time) (h : Hash) (req : Time) (mount : Option Nat) (v
   else v
 
 /-- handleUntrash on one mount -/
-def untrashVol (h : Hash) (v : Vol) : Vol := if v.ro then v else (v.untrash h).getD v
+def untrashVol (h : Hash) (now : Time) (v : Vol) : Vol := if v.ro then v else (v.untrash h now).getD v
 
-def untrashHit (h : Hash) (v : Vol) : Bool := !v.ro && (v.untrash h).isSome
+def untrashHit (h : Hash) (v : Vol) : Bool := !v.ro && (minEntry h v.trash).isSome
 
 def sweepVol (c : Cfg) (now : Time) (v : Vol) : Vol := if v.ro then v else v.emptyTrash c now
 
@@ -209,7 +213,8 @@ def step (c : Cfg) (s : St) : Op → St × Res
   | .untrash h =>
     if (writables s.vols).isEmpty then (s, .code 404) else
     if (s.vols.filter (untrashHit h)).isEmpty then (s, .code 404)
-    else ({ s with vols := s.vols.map (untrashVol h) }, .code 200)
+    else ({ s with vols := s.vols.map (fun v => untrashVol h (s.now + c.spread * v.id) v),
+                   now := s.now + c.spread * s.vols.length }, .code 200)
   | .emptyTrash =>
     ({ s with vols := s.vols.map (sweepVol c s.now) }, .quiet)
   | .tick d => ({ s with now := s.now + d }, .quiet)
